@@ -5,7 +5,8 @@ all 2^5 subsets of {data column, built-in registry, caller local, caller global,
 that define a name  x  role {argument, callee}  x  name form (plain / dotted / backquoted, plus the
 syntactic positions a name can take in a call term)  x  env depth 0..3 through four nested callers
 x  frame kind (real function frames with fast locals / `exec` frames with dict locals)  x  decoys
-(the non-selected frames define the name too, or not).
+(the non-selected frames define the name too, or not); the constructed callers may live in modules
+whose names look like the library's (`formulae_tools`, `formulaeX`, `app.formulae`, ...).
 
 Every scope binds the name to a distinguishable object (a constant vector with a scope-specific
 code, a function returning such a vector and recording its tag, a module-like object whose leaf
@@ -26,7 +27,7 @@ import types
 import numpy as np
 import pandas as pd
 
-from common import Result, ask
+from common import Result, ask, rng_for
 
 ASSUMPTIONS = [
     "CPython frame contents are taken as given: the harness tells the model which names each "
@@ -51,6 +52,18 @@ ASSUMPTIONS = [
     "(their instance is kept by the call), for them this stage observes the baseline matrix only",
     "negative `env` (frames of design_matrices / capture themselves) is outside the statement's "
     "quantifier; a handful of cases check the model's integer arithmetic only",
+    "module of the callers: the constructed caller frames may carry a module name (`__name__` in their "
+    "globals; reported to the model as one more harness-internal global).  Names used: "
+    "formulae_tools, formulaeX, formulae2, formulae_, myformulae, formulae_ext.helpers, "
+    "tests.test_formulae, app.formulae, Formulae, formula, __main__, bambi.backend, user_code -- only "
+    "names a user module can have (`formulae` and `formulae.<sub>`, the library's own, are excluded by "
+    "an assertion).  Kind `module_name` enumerates every name x which callers carry it (all / the "
+    "selected one / innermost up to the selected one / the innermost / all but the selected one) x env "
+    "depth 0..3 x frame kind (func / exec, module level for arguments) x {locals+globals, globals, "
+    "nothing} bound in the selected caller, decoys in all others, for an argument and a dotted callee; "
+    "in addition half of ALL other configurations (drawn from rng_for(seed, 'c11', 'modules', index)) "
+    "give each of their four callers a name drawn from that list or none.  Spec.C11.expected and the "
+    "model do not depend on the module's name",
 ]
 TRUSTED = ["CPython: inspect.currentframe / f_back / f_locals / f_globals, exec with separate "
            "globals and locals dicts"]
@@ -62,6 +75,26 @@ N_FRAMES = 4
 
 
 SPECIAL_VALUES = {"none": None, "zero": 0, "empty": "", "false": False}
+
+# `__name__` of the module a constructed caller lives in: names a USER module can legitimately have
+# (never `formulae` itself or `formulae.<sub>`, which are the library's own modules).  The statement
+# selects the frame by `env` alone: the name of the caller's module is no part of it.
+MODULE_NAMES = ["formulae_tools", "formulaeX", "formulae2", "formulae_", "myformulae",
+                "formulae_ext.helpers", "tests.test_formulae", "app.formulae", "Formulae", "formula",
+                "__main__", "bambi.backend"]
+PLAIN_MODULE = "user_code"
+MODULE_PLACEMENTS = ("all", "selected", "upto_selected", "innermost", "not_selected")
+
+
+def place_modules(name, placement, k):
+    """`__name__` of the four constructed callers (innermost first)"""
+    carries = {"all": lambda j: True, "selected": lambda j: j == k, "upto_selected": lambda j: j <= k,
+               "innermost": lambda j: j == 0, "not_selected": lambda j: j != k}[placement]
+    return [name if carries(j) else PLAIN_MODULE for j in range(N_FRAMES)]
+
+
+def legitimate_user_module(name):
+    return name is None or not (name == "formulae" or name.startswith("formulae."))
 
 
 def decoy_tag(which, j):
@@ -210,6 +243,8 @@ def run_chain(frames, call):
     entries = []
     for fr in frames:
         g = {"__builtins__": __builtins__, "_c11_state": state}
+        if fr.get("module") is not None:
+            g["__name__"] = fr["module"]          # the module this caller lives in
         g.update(fr["globals"])
         if fr["kind"] == "func":
             g["_c11_mine"] = dict(fr["locals"])
@@ -241,6 +276,8 @@ def frame_model(fr):
     loc = [[n, j] for n, (_, j) in fr["jlocals"].items()]
     glo = [[n, j] for n, (_, j) in fr["jglobals"].items()]
     internal_g = [["__builtins__", {"t": "py:builtins"}], ["_c11_state", {"t": "h"}]]
+    if fr.get("module") is not None:
+        internal_g = internal_g + [["__name__", {"t": "h"}]]
     if fr["kind"] == "func":
         return {"locals": loc, "globals": glo + internal_g + [["_c11_mine", {"t": "h"}]]}
     if fr["kind"] == "module":
@@ -342,9 +379,11 @@ def build(desc):
         extra_arg, jextra_arg = extra, jextra
 
     frames = []
+    modules = desc.get("modules") or [None] * N_FRAMES
+    assert all(legitimate_user_module(m) for m in modules), modules
     for j in range(N_FRAMES):
         fr = {"kind": fkind if isinstance(fkind, str) else fkind[j], "locals": {}, "globals": {},
-              "jlocals": {}, "jglobals": {}}
+              "jlocals": {}, "jglobals": {}, "module": modules[j]}
         sel = (j == k) or desc.get("all_frames_like_selected", False)
         for which, dst in (("L", "locals"), ("G", "globals")):
             tag = None
@@ -635,7 +674,36 @@ def subsets(letters):
             yield "".join(c)
 
 
-def enumerate_cases(tier, builtins_keys):
+def enumerate_cases(tier, builtins_keys, seed=0):
+    cases = _enumerate_cases(tier, builtins_keys)
+    # every configuration above is also run with its callers living in named modules: half of them
+    # keep callers without any `__name__` (as before), the others draw one name per caller
+    for i, c in enumerate(cases):
+        r = rng_for(seed, "c11", "modules", i)
+        if r.random() < 0.5:
+            c["modules"] = [r.choice(MODULE_NAMES + [PLAIN_MODULE, None]) for _ in range(N_FRAMES)]
+    # (11) the module a caller lives in is no part of the selection: every module name x which of the
+    # callers carry it x env depth x frame kind, with decoy bindings in all non-selected callers
+    seen = set()
+    for role, form in (("arg", "plain"), ("callee", "dotted2")):
+        for name in MODULE_NAMES:
+            for placement in MODULE_PLACEMENTS:
+                for k in range(N_FRAMES):
+                    mods = place_modules(name, placement, k)
+                    combos = [(fk, s) for fk in ("func", "exec") for s in ("LG", "G", "")]
+                    if role == "arg":
+                        combos.append(("module", "L"))
+                    for fk, s in combos:
+                        key = (role, tuple(mods), k, fk, s)
+                        if key in seen:
+                            continue
+                        seen.add(key)
+                        cases.append({"kind": "module_name", "role": role, "form": form, "subset": s,
+                                      "k": k, "frames": fk, "decoys": True, "modules": mods})
+    return cases
+
+
+def _enumerate_cases(tier, builtins_keys):
     cases = []
     # (1) the statement's configuration space
     for role, forms in (("arg", ARG_FORMS), ("callee", CALLEE_FORMS)):
@@ -772,7 +840,10 @@ def explore(tier, seed, res=None, replay=None):
                 "configuration (decoys included) bind the name, or none does, or the env is too "
                 "deep / not an integer; distinct by configuration; the configurations of the "
                 "statement's space and the real-registry-key cases are resolved twice: by "
-                "design_matrices and by evaluate_new_data on the design")
+                "design_matrices and by evaluate_new_data on the design; the callers live in modules "
+                "with user-legitimate names incl. ones that start with / contain 'formulae' (kind "
+                "`module_name`: every name x placement x depth x frame kind; half of all other "
+                "configurations with drawn names)")
     tables = ask([{"op": "c11_tables"}])[0]
     builtins_keys = tables["builtins_keys"]
     from formulae.transforms import TRANSFORMS
@@ -783,7 +854,7 @@ def explore(tier, seed, res=None, replay=None):
     if replay is not None:
         descs = [replay["desc"] if "desc" in replay else replay]
     else:
-        descs = enumerate_cases(tier, builtins_keys)
+        descs = enumerate_cases(tier, builtins_keys, seed)
         res.exhaustive = True
     dirty = harness_frames_clean(["zz", "mq", "z z", "zq.w"])
     if dirty:
